@@ -664,8 +664,11 @@ class propagator_cpmc(propagator_unrestricted):
         prop_data = self.propagate_one_body(trial, ham_data, prop_data, wave_data)
 
         prop_data["weights"] *= jnp.exp(self.dt * (prop_data["pop_control_ene_shift"]))
+        # 0 * inf (population extinct, shift = inf) is not a number: such walkers stay dead
         prop_data["weights"] = jnp.where(
-            prop_data["weights"] > 100.0, 0.0, prop_data["weights"]
+            jnp.isnan(prop_data["weights"]) | (prop_data["weights"] > 100.0),
+            0.0,
+            prop_data["weights"],
         )
         prop_data["pop_control_ene_shift"] = prop_data["e_estimate"] - 0.1 * jnp.array(
             jnp.log(jnp.sum(prop_data["weights"]) / self.n_walkers) / self.dt
@@ -779,8 +782,11 @@ class propagator_cpmc_slow(propagator_cpmc, propagator_unrestricted):
         prop_data["overlaps"] = overlaps_new
 
         prop_data["weights"] *= jnp.exp(self.dt * (prop_data["pop_control_ene_shift"]))
+        # 0 * inf (population extinct, shift = inf) is not a number: such walkers stay dead
         prop_data["weights"] = jnp.where(
-            prop_data["weights"] > 100.0, 0.0, prop_data["weights"]
+            jnp.isnan(prop_data["weights"]) | (prop_data["weights"] > 100.0),
+            0.0,
+            prop_data["weights"],
         )
         prop_data["pop_control_ene_shift"] = prop_data["e_estimate"] - 0.1 * jnp.array(
             jnp.log(jnp.sum(prop_data["weights"]) / self.n_walkers) / self.dt
@@ -1233,8 +1239,11 @@ class propagator_cpmc_nn(propagator_cpmc, propagator_unrestricted):
         prop_data = self.propagate_one_body(trial, ham_data, prop_data, wave_data)
 
         prop_data["weights"] *= jnp.exp(self.dt * (prop_data["pop_control_ene_shift"]))
+        # 0 * inf (population extinct, shift = inf) is not a number: such walkers stay dead
         prop_data["weights"] = jnp.where(
-            prop_data["weights"] > 100.0, 0.0, prop_data["weights"]
+            jnp.isnan(prop_data["weights"]) | (prop_data["weights"] > 100.0),
+            0.0,
+            prop_data["weights"],
         )
         prop_data["pop_control_ene_shift"] = prop_data["e_estimate"] - 0.1 * jnp.array(
             jnp.log(jnp.sum(prop_data["weights"]) / self.n_walkers) / self.dt
@@ -1598,8 +1607,11 @@ class propagator_cpmc_nn_slow(propagator_unrestricted):
         prop_data["overlaps"] = overlaps_new
 
         prop_data["weights"] *= jnp.exp(self.dt * (prop_data["pop_control_ene_shift"]))
+        # 0 * inf (population extinct, shift = inf) is not a number: such walkers stay dead
         prop_data["weights"] = jnp.where(
-            prop_data["weights"] > 100.0, 0.0, prop_data["weights"]
+            jnp.isnan(prop_data["weights"]) | (prop_data["weights"] > 100.0),
+            0.0,
+            prop_data["weights"],
         )
         prop_data["pop_control_ene_shift"] = prop_data["e_estimate"] - 0.1 * jnp.array(
             jnp.log(jnp.sum(prop_data["weights"]) / self.n_walkers) / self.dt
@@ -1683,8 +1695,11 @@ class propagator_cpmc_continuous(propagator_unrestricted):
             jnp.where(prop_data["weights"] < 1.0e-8, 0.0, prop_data["weights"])
         )
         prop_data["overlaps"] = overlaps_new
+        # 0 * inf (population extinct, shift = inf) is not a number: such walkers stay dead
         prop_data["weights"] = jnp.where(
-            prop_data["weights"] > 100.0, 0.0, prop_data["weights"]
+            jnp.isnan(prop_data["weights"]) | (prop_data["weights"] > 100.0),
+            0.0,
+            prop_data["weights"],
         )
         # prop_data["weights"] = overlaps_new.real
         prop_data["pop_control_ene_shift"] = prop_data["e_estimate"] - 0.1 * jnp.array(
